@@ -322,3 +322,9 @@ mod tests {
         assert!(!needs_expand_home("echo ~~"));
     }
 }
+
+#[cfg(cicada_verif)]
+pub mod verif_hooks {
+    pub fn split_pathname(path: &str, prefix: &str) -> (String, String, String) { super::split_pathname(path, prefix) }
+    pub fn needs_expand_home(line: &str) -> bool { super::needs_expand_home(line) }
+}
